@@ -395,6 +395,7 @@ pub fn map_children(g: &G, f: &mut dyn FnMut(&G) -> G) -> G {
         WithCtx(c, a) => WithCtx(*c, bx(a)),
         MapCtx(a) => MapCtx(bx(a)),
         RepCtx(a) => RepCtx(bx(a)),
+        RepCtxMax(a) => RepCtxMax(bx(a)),
         TryRepCtx(a) => TryRepCtx(bx(a)),
         Rep(a, bd, s) => {
             let a = bx(a);
@@ -540,6 +541,7 @@ pub fn k_ctx() -> Class {
     unary.push(u1(|a| Some(WithCtx('b', a))));
     unary.push(u1(|a| if nn(&a) { Some(RepCtx(a)) } else { None }));
     unary.push(u1(|a| if nn(&a) { Some(TryRepCtx(a)) } else { None }));
+    unary.push(u1(|a| if nn(&a) { Some(RepCtxMax(a)) } else { None }));
     let mut binary = binary_core();
     binary.push(u2(|a, c| Some(ThenWithCtx(a, c))));
     binary.push(u2(|a, c| Some(IgnoreWithCtx(a, c))));
@@ -576,4 +578,12 @@ pub fn k_emit() -> Class {
     ];
     let binary = vec![u2(|a, c| Some(Then(a, c))), u2(|a, c| Some(Or(a, c))), u2(|a, c| Some(AndIs(a, c))), u2(|a, f| Some(Recover(a, f)))];
     Class { name: "Kemit", leaves, unary, binary, ternary: vec![] }
+}
+
+/// Focused label class (C17): few node kinds, deep trees.
+pub fn k_label() -> Class {
+    let leaves = vec![Just('a'), JustSeq('a', 'b'), Any];
+    let unary = vec![u1(|a| Some(Labelled(a, false))), u1(|a| Some(Labelled(a, true))), u1(|a| Some(MapErr(a))), u1(|a| Some(OrNot(a)))];
+    let binary = vec![u2(|a, c| Some(Then(a, c))), u2(|a, c| Some(Or(a, c)))];
+    Class { name: "Klabel", leaves, unary, binary, ternary: vec![] }
 }
